@@ -35,13 +35,13 @@ Section H.
       rewrite holder_model. apply (hgo_assoc k0 [m] [] (Some cls) attrs (NTuple ms) cls A). reflexivity.
     - assert (Ne : exists x r, p ++ k0 :: rest = x :: r) by (destruct p; simpl; eexists; eexists; reflexivity).
       destruct Ne as [x [r Er]]. simpl app. rewrite Er.
-      destruct n as [?|?|?|? ? ? ? ?|cls' ctor' attrs'|attrs']; simpl in H; try discriminate.
+      destruct n as [?|?|?|? ? ? ? ?|? ? ?|cls' ctor' attrs'|attrs']; simpl in H; try discriminate.
       + destruct (assoc k attrs') as [c|] eqn:Ak; [|discriminate]. rewrite holder_model.
         apply (hgo_assoc k (x :: r) r (Some cls') attrs' c cls Ak).
         assert (Hc := IH c cls ctor attrs k0 c0 rest H A R). rewrite Er in Hc.
         unfold hdown. destruct c; try exact Hc. destruct p; simpl in H; discriminate.
       + destruct (assoc k attrs') as [c|] eqn:Ak; [|discriminate]. rewrite holder_coll.
-        apply (hgo_assoc k (x :: r) r (Some "ModelInstance") attrs' c cls Ak).
+        apply (hgo_assoc k (x :: r) r (coll_own V (NColl attrs')) attrs' c cls Ak).
         assert (Hc := IH c cls ctor attrs k0 c0 rest H A R). rewrite Er in Hc.
         unfold hdown. destruct c; try exact Hc. destruct p; simpl in H; discriminate.
   Qed.
